@@ -331,6 +331,31 @@ def parse_scaling(chk, pid, tier, seed):
         if scans > 2 * (ntok + 1) * (ntok + 1):
             fails.append({"kind": "property", "stream": "py:parse_scaling", "case": l.split("\t")[0][:300], "result": r, "noshrink": True,
                           "detail": "family %s n=%d: %d recovery scan steps exceed 2*(tokens+1)^2" % (name, n, scans)})
+    # a doubling that looks too expensive is measured again (3 more rounds of 5 repeats, minimum kept):
+    # scheduling noise does not survive the minimum, a real blow-up does
+    def too_slow(u1, u2):
+        return u2 > 6 * u1 + 3000
+    suspects = []
+    for name, pts in by_family.items():
+        pts.sort()
+        for (n1, _, u1, _, _), (n2, _, u2, _, _) in zip(pts, pts[1:]):
+            if too_slow(u1, u2):
+                suspects.append((name, n1)); suspects.append((name, n2))
+    remeasured = 0
+    if suspects:
+        srcs = {}
+        for n in sizes:
+            for name, src in families(n):
+                if (name, n) in suspects:
+                    srcs[(name, n)] = src
+        keys = sorted(srcs)
+        for _ in range(3):
+            res2 = chk.run_harness_lines(["(timeparse %s %d)" % (hexs(srcs[k].encode()), 5) for k in keys], case_ms=60000)
+            for k, l in zip(keys, res2):
+                m = re.match(r"\(timed (\w+) (\d+) (\d+) ", l.split("\t", 1)[1])
+                if m:
+                    remeasured += 1
+                    by_family[k[0]] = [(n, t, min(u, int(m.group(3))) if n == k[1] else u, mi, sc) for (n, t, u, mi, sc) in by_family[k[0]]]
     growth = {}
     for name, pts in by_family.items():
         pts.sort()
@@ -344,7 +369,7 @@ def parse_scaling(chk, pid, tier, seed):
                               "detail": "family %s: time grows %.1fx from n=%d to n=%d (%d us -> %d us)" % (name, ratio, n1, n2, u1, u2)})
     return {"fails": fails, "stats": {"total": len(lines), "distinct_nontrivial": len(lines), "families": {k: len(v) for k, v in by_family.items()}},
             "samples": [lines[0][:120], "(family definitions n=1024)"],
-            "coverage": {"max_growth_per_doubling": growth, "sizes": sizes,
+            "coverage": {"max_growth_per_doubling": growth, "sizes": sizes, "remeasured_after_a_slow_doubling": remeasured,
                          "largest": {k: {"tokens": v[-1][1], "us": v[-1][2], "misses": v[-1][3], "scans": v[-1][4]} for k, v in by_family.items()}}}
 
 
